@@ -137,6 +137,10 @@ impl<'a> SchemaDiscoverer<'a> {
     /// Discover the schema of the DBC file
     pub fn discover(&self) -> Result<DiscoveredSchema> {
         // Determine how many records to analyze
+        // The header is untrusted: nothing is allocated from its counts before it fits the data
+        self.header.check_fits(self.data.len() as u64)?;
+        self.header.check_raw_fields_fit(self.data.len() as u64)?;
+
         let records_to_analyze =
             if self.max_records == 0 || self.max_records > self.header.record_count {
                 self.header.record_count
@@ -190,12 +194,12 @@ impl<'a> SchemaDiscoverer<'a> {
 
     /// Analyze all fields to determine their types
     fn analyze_fields(&self, record_data: &[Vec<u32>]) -> Result<Vec<DiscoveredField>> {
-        let mut discovered_fields = Vec::with_capacity(self.header.field_count as usize);
-
         // If no records to analyze, return empty fields
         if record_data.is_empty() {
-            return Ok(discovered_fields);
+            return Ok(Vec::new());
         }
+
+        let mut discovered_fields = Vec::with_capacity(self.header.field_count as usize);
 
         // Analyze each field
         for field_index in 0..self.header.field_count as usize {
